@@ -24,6 +24,8 @@ Definition f_sched_run := @sched_run FNumI f_paper_step.
 Definition f_stack_runs (n : nat) (stack : list (algo FNumI)) :=
   @stack_runs FNumI f_paper_step n (dummy_root 1 stack None).
 
+Definition f_run_period_at := run_period_at.
+
 Definition f_digest := @digest FNumI fstate.
 Definition f_report_weights := @report_weights FNumI fstate.
 Definition f_report_security_weights := @report_security_weights FNumI fstate.
@@ -36,4 +38,4 @@ Definition f_report_prices := @report_prices FNumI fstate.
 
 Extraction "model.ml" f_build f_apply_op f_comm f_paper_step f_backtest f_cal f_sub_offset f_sched_run f_stack_runs empty_temp
   f_report_weights f_report_security_weights f_report_positions f_report_outlays f_report_hhi f_report_turnover
-  f_report_transactions f_report_prices f_digest.
+  f_report_transactions f_report_prices f_digest f_run_period_at.
